@@ -49,9 +49,20 @@ class Tab(object):
 class LRModel(object):
     """The two transition systems unrolled for token sequences of exactly N tokens."""
 
-    def __init__(self, yacc_parser, N, alphabet=None):
+    def __init__(self, yacc_parser, N, terms=None):
+        """terms: token alphabet ('$end' first).  With the default (C04) alphabet the shunting-yard reference is built
+        too; with any other alphabet only the LR driver (for the halting / unwinding query)."""
+        global TERMS, TID
         self.N = N
         Y = yacc_parser
+        self.with_ref = terms is None
+        if terms is not None:
+            self.terms = list(terms)
+        else:
+            self.terms = list(TERMS)
+        TERMS_ = self.terms
+        TID_ = {t: i for i, t in enumerate(TERMS_)}
+        self.tid = TID_
         prods = Y.productions
         self.prods = prods
         nonterms = sorted({p.name for p in prods})
@@ -62,7 +73,7 @@ class LRModel(object):
         while work:
             st = work.pop()
             for t, a in Y.action.get(st, {}).items():
-                if t in TID and a > 0 and a not in seen:
+                if t in TID_ and a > 0 and a not in seen:
                     seen.add(a)
                     work.append(a)
             for nn, g in Y.goto.get(st, {}).items():
@@ -75,8 +86,8 @@ class LRModel(object):
             if s not in seen:
                 continue
             for t, a in d.items():
-                if t in TID:
-                    act[s * 64 + TID[t]] = (a if a > 0 else (0x4000 + (-a))) if a != 0 else ACC
+                if t in TID_:
+                    act[s * 64 + TID_[t]] = (a if a > 0 else (0x4000 + (-a))) if a != 0 else ACC
         goto = {}
         for s, d in Y.goto.items():
             if s not in seen:
@@ -88,7 +99,7 @@ class LRModel(object):
         PLEN = Tab({i: p.len for i, p in enumerate(prods)}, 0)
         PLHS = Tab({i: NID[p.name] for i, p in enumerate(prods) if i}, 0)
         PRPN = Tab({i: self.rpn_of_production(p) for i, p in enumerate(prods)}, 0)
-        NT = len(TERMS)
+        NT = len(TERMS_)
         tok = [z3.BitVec('t%d' % i, W) for i in range(N)]
         self.tok = tok
         cons = []
@@ -136,6 +147,8 @@ class LRModel(object):
         self.lr_ok = z3.And(done, z3.Not(err))
         self.lr_unfinished = z3.And(z3.Not(done), z3.Not(err))
         lr_out, lr_on = out, on
+        if not self.with_ref:
+            return
         # ---- machine 2: shunting-yard reference
         def level(code):
             e = I(0)
@@ -227,7 +240,7 @@ class LRModel(object):
         return s
 
     def tokens_of(self, m):
-        return [TERMS[m.eval(t, model_completion=True).as_long()] for t in self.tok]
+        return [self.terms[m.eval(t, model_completion=True).as_long()] for t in self.tok]
 
 
 OPERANDS = [2, 3, 5, 7, 11, 13, 17, 19, 23]
